@@ -40,6 +40,8 @@ def recipe_candidates(recipe):
                     o["src"] = srcs[0]
                 new_ops.append(o)
             r["ops"] = new_ops
+            if any(isinstance(o.get("src"), list) and len(set(o["src"])) < len(o["src"]) and o["op"] == "merge" for o in new_ops):
+                continue  # would create a self-merge, a region the generator excludes
             yield W.prune(r)
     # 4. drop knobs
     for op in ops:
